@@ -243,11 +243,72 @@ def doc_of(fmt, contents):
     return "".join("%s%s\n" % (G.mdvd_prefix(*G.times(i)), c) for i, c in enumerate(contents))
 
 
+STALE = ["STALE words", "left <i>over</i>", "old &amp; gone"]
+
+
+def rejected_docs(fmt):
+    """documents the reader of `fmt` REJECTS after it has already collected caption text: a well-formed first cue with
+    text, then a cue whose timing is broken (and the same with the broken cue first; and a document cut off in the middle)"""
+    good = doc_of(fmt, STALE[:2] + ["tail"])
+    out = []
+    if fmt == "DFXP":
+        t1 = G.srt_timing(*G.times(1))[:12].replace(",", ".")
+        t0 = G.srt_timing(*G.times(0))[:12].replace(",", ".")
+        out = [good.replace('begin="%s"' % t1, 'begin="bogus"'), good.replace('begin="%s"' % t0, 'begin="1:xx"'),
+               good[:good.index("tail")], good.replace('end="', 'end="x', 1)]
+    elif fmt == "SAMI":
+        out = [good.replace("<SYNC Start=%d>" % (G.times(1)[0] // 1000), "<SYNC Start=abc>"), good[:good.index("tail")],
+               "<SAMI><BODY></BODY></SAMI>", good.replace("lang: en-US;", "")]
+    elif fmt == "WebVTT":
+        t1 = G.vtt_timing(*G.times(1))
+        out = [good.replace(t1, t1.replace("-->", "--> x")), good.replace(t1, "00:00:09.000 --> 00:00:01"),
+               good.replace("WEBVTT", "WEBVT", 1), good.replace(t1, t1[:6] + "zz" + t1[8:])]
+    elif fmt == "SRT":
+        t1 = G.srt_timing(*G.times(1))
+        out = [good.replace(t1, "00:00:0x,000 --> 00:00:04,500"), good.replace(t1, t1.replace(" --> ", " -> ")),
+               good.replace("\n2\n", "\ntwo\n", 1), ""]
+    else:
+        p1 = G.mdvd_prefix(*G.times(1))
+        out = [good.replace(p1, "{x}{y}"), good.replace(p1, ""), good.replace(p1, p1[:-1]), ""]
+    return out
+
+
+_REJECTED = {}
+
+
+def used_reader(fmt, rng):
+    """a reader object with a past: it has read (and refused) a document before; the caller caught the exception"""
+    if fmt not in _REJECTED:
+        keep = []
+        for d in rejected_docs(fmt):
+            r = impl.call(lambda: READERS[fmt]().read(d))
+            if not isinstance(r, Ok):
+                keep.append(d)
+        _REJECTED[fmt] = keep
+    reader = READERS[fmt]()
+    docs = _REJECTED[fmt]
+    for d in (rng.sample(docs, min(len(docs), rng.randint(1, 2))) if docs else []):
+        impl.call(lambda: reader.read(d))
+    return reader, len(docs)
+
+
+READER_HISTORY = [None]       # set to an rng by run(): half of the documents are read by a reader object with a past
+
+
 def read_doc(fmt, doc):
-    r = impl.call(lambda: READERS[fmt]().read(doc))
+    rng = READER_HISTORY[0]
+    if rng is not None and rng.random() < 0.5:
+        reader, nrej = used_reader(fmt, rng)
+        HIST_COUNT[fmt] = HIST_COUNT.get(fmt, 0) + (1 if nrej else 0)
+        r = impl.call(lambda: reader.read(doc))
+    else:
+        r = impl.call(lambda: READERS[fmt]().read(doc))
     if not isinstance(r, Ok):
         return r
-    cs = r.v
+    return _caps_of(r.v)
+
+
+def _caps_of(cs):
     caps = []
     for lang in cs.get_languages():
         for c in cs.get_captions(lang):
@@ -263,6 +324,9 @@ def read_doc(fmt, doc):
                                   bool(d.get("underline")), d.get("color")))
             caps.append(nodes)
     return Ok(caps)
+
+
+HIST_COUNT = {}
 
 
 def model_nodes(resp):
@@ -879,6 +943,8 @@ def run(ctx):
     res = {"evaluations": 0, "nontrivial": set(), "violations": [], "disagreements": [], "distribution": {},
            "streams": 4, "notes": []}
     rng = ctx.rng
+    READER_HISTORY[0] = rng
+    HIST_COUNT.clear()
     # B: exhaustive short token sequences
     maxlen = ctx.n(3, 4)
     for fmt in FMT:
@@ -911,6 +977,11 @@ def run(ctx):
             run_batch(ctx, res, fmt, cues, "A")
     run_vtt_documents(ctx, res, ctx.n(250, 8000))
     run_regex_fuzz(ctx, res, ctx.n(2500, 60000))
+    READER_HISTORY[0] = None              # shrinking and replays use a fresh reader AND, see check_one, a used one
+    for f, c in HIST_COUNT.items():
+        res["distribution"]["read_after_rejected_document_" + f] = c
+    for f in FMT:
+        res["distribution"]["rejected_documents_" + f] = len(_REJECTED.get(f, []))
     classify_known(res["violations"])
     # shrink the first violation of every kind
     seen = set()
@@ -950,14 +1021,25 @@ def run(ctx):
 def check_one(fmt, items):
     w = wire_items(items)
     s = oracle_batch([(400, [FMT[fmt], w])])[0]
-    got = read_doc(fmt, doc_of(fmt, [s]))
-    if not isinstance(got, Ok):
-        return False, ("raise", got.code)
-    if len(got.v) != 1:
-        return False, ("cue-count", len(got.v))
-    lo = G.py_lines(got.v[0])
-    ok = oracle_batch([(408, [w, lo])])[0]
-    return ok == 1, {"content": s, "observed": lo}
+    import random
+    for hist in (None, random.Random(1), random.Random(2)):
+        READER_HISTORY[0] = None
+        if hist is None:
+            got = read_doc(fmt, doc_of(fmt, [s]))
+        else:
+            reader, _ = used_reader(fmt, hist)
+            got = impl.call(lambda: reader.read(doc_of(fmt, [s])))
+            if isinstance(got, Ok):
+                got = _caps_of(got.v)
+        if not isinstance(got, Ok):
+            return False, ("raise", got.code)
+        if len(got.v) != 1:
+            return False, ("cue-count", len(got.v))
+        lo = G.py_lines(got.v[0])
+        ok = oracle_batch([(408, [w, lo])])[0]
+        if ok != 1:
+            return False, {"content": s, "observed": lo, "reader": "fresh" if hist is None else "after a rejected document"}
+    return True, {"content": s, "observed": lo}
 
 
 def shrink(v):
